@@ -86,10 +86,15 @@ def instantiate(rng, cfg):
         bi, bj = block_pair(cfg["pos"])
         a, b = states_of(inst, bi)[0], states_of(inst, bj)[-1]
         ex = [[(F0, F0)] * d for _ in range(d)]
-        ex[a][b] = (F1, F0)
-        if herm or True:
+        # Hermitian mode: the coupling is necessarily symmetric. Non-Hermitian mode: the
+        # offending coupling may sit above the block diagonal only, below it only, or both.
+        where = "both" if herm else rng.choice(["upper", "lower", "lower", "both"])
+        if where in ("upper", "both"):
+            ex[a][b] = (F1, F0)
+        if where in ("lower", "both"):
             ex[b][a] = (F1, F0)
         inst["h0_extra"] = ex
+        rec["where"] = where
     elif cls == "shared_energy_blocks":
         bi, bj = block_pair(cfg["pos"])
         a, b = states_of(inst, bi)[0], states_of(inst, bj)[-1]
